@@ -4,7 +4,7 @@ C(v, dp, ip, ix, fu) == [ver |-> v, dpad |-> dp, ipad |-> ip, idx |-> ix, full |
 (* a CARv1 followed by null padding: wrapped (with ZeroLengthSectionAsEOF) the padding is part of
    the unmodified source bytes *)
 CN(n) == [C(1, 0, 0, "none", FALSE) EXCEPT !.npad = n]
-TConts == { C(1, 0, 0, "none", FALSE), CN(3), C(2, 0, 0, "mh", FALSE), C(2, 1, 7, "sorted", FALSE), C(2, 1413, 0, "none", FALSE), C(2, 8, 1407, "mh", TRUE) }
+TConts == { C(1, 0, 0, "none", FALSE), CN(3), [hx |-> 1] @@ C(1, 0, 0, "none", FALSE), [hx |-> 1] @@ C(2, 0, 0, "mh", FALSE), C(2, 0, 0, "mh", FALSE), C(2, 1, 7, "sorted", FALSE), C(2, 1413, 0, "none", FALSE), C(2, 8, 1407, "mh", TRUE) }
 TRoots == { <<>>, <<"b1">>, <<"b3">>, <<"b1", "b4">>, <<"b10">> }
 TIds   == {"b1", "b3", "b5", "b10", "b13", "b14"}
 TRepl  == { <<>>, <<"b2">>, <<"b3">>, <<"b4", "b1">>, <<"b1", "b3">>, <<"b20">> }
